@@ -69,11 +69,16 @@ func Start() *Engine {
 			case w := <-e.addWatcher:
 				logrus.Info("Add watcher")
 				watchers[w.id] = w
-				w.update(ctx, global)
+				if !w.update(ctx, global) {
+					delete(watchers, w.id)
+				}
 			case id := <-e.removeWatcher:
 				logrus.Info("Remove watcher")
-				watchers[id].close()
-				delete(watchers, id)
+				// The watcher may be gone already: cancelled twice, hung up on, or failed.
+				if w, has := watchers[id]; has {
+					w.close()
+					delete(watchers, id)
+				}
 			case req := <-e.updateDB:
 				logrus.Info("Update DB")
 				logrus.Infof("-> %#v", req.expr)
@@ -87,7 +92,9 @@ func Start() *Engine {
 				global = global.With(Root, value)
 				for i, w := range watchers {
 					logrus.Infof("Update watcher %d", i)
-					w.update(ctx, global)
+					if !w.update(ctx, global) {
+						delete(watchers, i)
+					}
 				}
 			case <-e.stop:
 				logrus.Infof("Stop")
@@ -146,23 +153,29 @@ type watcher struct {
 	onclose  func(error)
 }
 
-func (w *watcher) update(ctx context.Context, global rel.Scope) {
+// update sends the watcher the value of its expression and reports whether the
+// watcher is still live. It runs on the engine goroutine, so it must not call
+// w.cancel(), which sends to that same goroutine: a watcher that fails is closed
+// here and removed by the caller.
+func (w *watcher) update(ctx context.Context, global rel.Scope) (live bool) {
 	defer func() {
 		if err := recover(); err != nil {
 			w.onclose(errors.WrapPrefix(err, "update panic", 0))
+			live = false
 		}
 	}()
 
 	value, err := w.expr.Eval(ctx, global)
 	if err != nil {
-		w.cancel()
 		w.onclose(err)
-		return
+		return false
 	}
 
 	if err = w.onupdate(value); err != nil {
-		w.cancel()
+		w.close()
+		return false
 	}
+	return true
 }
 
 func (w *watcher) close() {
